@@ -89,6 +89,52 @@ type c15flaky struct {
 	hic  *c15hiccup
 	node int
 	dels *c15delLog
+	loss *c15lossy
+}
+
+// c15lossy makes one node's connection answer badly on operations that change
+// the store: a reply is lost AFTER the store processed the operation (the
+// caller sees a transport error although the effect, if any, happened - this
+// includes a SetNX on an occupied key, which would have answered false), a
+// claim request is lost BEFORE it reaches the store, or the answer to a claim
+// (SetNX) takes seconds, either because the request or because the reply
+// travels slowly. Disarmed unless a mode arms it.
+type c15lossy struct {
+	den      int  // each SetNX/Set/Delete loses its reply with chance 1/den (0 = never)
+	reqLoss  bool // SetNX and Delete may instead lose the request (not executed)
+	slowLeft int  // how many SetNX answers may still be slow
+	slowDen  int
+	slowDur  time.Duration
+	mu       sync.Mutex
+	errs     []c15claimErr // claim (SetNX / Set) operations that returned an injected error
+	slow     int
+}
+
+type c15claimErr struct {
+	key   string
+	stamp int64
+	after bool // the store had processed the operation
+}
+
+var errC15Lost = errors.New("c15: connection reset while waiting for the store's reply")
+
+// fault decides about one operation: (lostReply, lostRequest).
+func (l *c15lossy) fault(w *simrt.World, mayLoseRequest bool) (bool, bool) {
+	if l == nil || l.den == 0 || !w.DrawChance(1, l.den, "lossy.op") {
+		return false, false
+	}
+	if mayLoseRequest && l.reqLoss && w.Draw(2, "lossy.kind") == 1 {
+		w.Fault("store.request-lost")
+		return false, true
+	}
+	w.Fault("store.reply-lost")
+	return true, false
+}
+
+func (l *c15lossy) note(w *simrt.World, key string, after bool) {
+	l.mu.Lock()
+	l.errs = append(l.errs, c15claimErr{key: key, stamp: w.Stamp(), after: after})
+	l.mu.Unlock()
 }
 
 // c15delLog records, for every Delete a node issues, the stamps right before
@@ -151,6 +197,11 @@ func (f c15flaky) Set(k string, v any, ttl time.Duration) error {
 		}
 		h.seen++
 	}
+	if lost, _ := f.loss.fault(f.w, false); lost {
+		f.s.Set(k, v, ttl)
+		f.loss.note(f.w, k, true)
+		return errC15Lost
+	}
 	return f.s.Set(k, v, ttl)
 }
 func (f c15flaky) Get(k string) (any, error) {
@@ -165,8 +216,16 @@ func (f c15flaky) Delete(k string) error {
 		f.w.Yield("outage.Delete")
 		return err
 	}
+	lostReply, lostReq := f.loss.fault(f.w, true)
+	if lostReq {
+		return errC15Lost
+	}
 	if f.dels == nil {
-		return f.s.Delete(k)
+		err := f.s.Delete(k)
+		if lostReply {
+			return errC15Lost
+		}
+		return err
 	}
 	rec := c15del{node: f.node, key: k, start: f.w.Stamp(), end: c15never}
 	f.dels.mu.Lock()
@@ -177,6 +236,9 @@ func (f c15flaky) Delete(k string) error {
 	f.dels.mu.Lock()
 	f.dels.recs[i].end = f.w.Stamp()
 	f.dels.mu.Unlock()
+	if lostReply {
+		return errC15Lost
+	}
 	return err
 }
 func (f c15flaky) Exists(k string) (bool, error) {
@@ -209,6 +271,32 @@ func (f c15flakyCAS) SetNX(k string, v any, ttl time.Duration) (bool, error) {
 		f.w.Yield("outage.SetNX")
 		return false, err
 	}
+	if l := f.loss; l != nil {
+		lostReply, lostReq := l.fault(f.w, true)
+		if lostReq {
+			l.note(f.w, k, false)
+			return false, errC15Lost
+		}
+		if lostReply {
+			f.s.SetNX(k, v, ttl)
+			l.note(f.w, k, true)
+			return false, errC15Lost
+		}
+		if l.slowLeft > 0 && f.w.DrawChance(1, l.slowDen, "slow.claim") {
+			l.slowLeft--
+			l.mu.Lock()
+			l.slow++
+			l.mu.Unlock()
+			f.w.Fault("store.slow-claim")
+			if f.w.Draw(2, "slow.where") == 0 {
+				f.w.Sleep(l.slowDur) // the request travels slowly
+				return f.s.SetNX(k, v, ttl)
+			}
+			ok, err := f.s.SetNX(k, v, ttl)
+			f.w.Sleep(l.slowDur) // the reply travels slowly
+			return ok, err
+		}
+	}
 	return f.s.SetNX(k, v, ttl)
 }
 func (f c15flakyCAS) CompareAndSwap(k string, o, n any, ttl time.Duration) (bool, error) {
@@ -234,6 +322,7 @@ type c15cluster struct {
 	down    []*bool           // per node outage switch
 	hics    []*c15hiccup      // per node single-operation hiccup (disarmed unless a mode arms it)
 	dels    *c15delLog        // every Delete issued by any node, with call/return stamps
+	loss    []*c15lossy       // per node lossy/slow connection (disarmed unless a mode arms it)
 	views   []types.Storage   // per node: what the node's components are constructed with
 	closers []func()
 }
@@ -263,7 +352,9 @@ func c15NewCluster(w *simrt.World, flavour string, nodes int) *c15cluster {
 		cl.down = append(cl.down, d)
 		hc := &c15hiccup{}
 		cl.hics = append(cl.hics, hc)
-		fl := c15flaky{w: w, s: h, down: d, hic: hc, node: n, dels: cl.dels}
+		ls := &c15lossy{}
+		cl.loss = append(cl.loss, ls)
+		fl := c15flaky{w: w, s: h, down: d, hic: hc, node: n, dels: cl.dels, loss: ls}
 		var view types.Storage
 		switch flavour {
 		case "cas-memory", "cas-redis":
@@ -464,6 +555,12 @@ func c15RunIDGen(w *simrt.World, tier string) {
 	}
 	crashNode := c.Intn(nodes, "crash.node")
 	checkFailDen := []int{0, 0, 4}[c.Intn(3, "check.fail")]
+	// one node's store connection loses replies (the store HAS processed the operation, e.g. a SetNX on a
+	// colliding candidate that would have answered false) and/or answers up to three claims only after seconds
+	lossyDen := []int{0, 0, 4}[c.Intn(3, "lossy")]
+	slowClaims := c.Intn(3, "slow.claims") == 2
+	slowDur := []time.Duration{3*time.Second + 77*time.Microsecond, 7*time.Second + 77*time.Microsecond}[c.Intn(2, "slow.dur")]
+	lossyNode := c.Intn(nodes, "lossy.node")
 	// swarm knob: every task works on ONE generator instance (intra-instance atomicity of check-and-mark,
 	// whatever the topology); otherwise tasks are spread over the instances
 	focusOne := c.Intn(4, "focus.one.instance") == 3
@@ -606,6 +703,10 @@ func c15RunIDGen(w *simrt.World, tier string) {
 		o, _ := cl.handles[crashNode].Ops()
 		cl.handles[crashNode].CrashAt = o + crashAt
 	}
+	cl.loss[lossyNode].den = lossyDen
+	if slowClaims {
+		cl.loss[lossyNode].slowLeft, cl.loss[lossyNode].slowDen, cl.loss[lossyNode].slowDur = 3, 3, slowDur
+	}
 	rd.force = -1
 
 	var mu sync.Mutex
@@ -721,6 +822,7 @@ func c15RunIDGen(w *simrt.World, tier string) {
 
 	// Termination: Generate consumes no simulated time, so after the planned
 	// sleeps plus a margin every task must be finished (or unwound by a crash).
+	// (a slow claim adds at most 3 x 7s per run, far inside the margin)
 	w.Sleep(sleepSum + time.Hour + 29*time.Millisecond)
 	for i, t := range tasks {
 		if !t.Done() {
@@ -857,7 +959,13 @@ func c15RunIDGen(w *simrt.World, tier string) {
 	if focusOne {
 		w.Probe("topology.all-tasks-on-one-instance")
 	}
-	w.State(fmt.Sprintf("idgen/%s/n%d/i%d/one=%v/direct=%v/pool%d/ids%d/exh=%v/ovl=%v/fail=%v", flavour, nodes, perNode, focusOne, direct, poolN, len(keys), exhausted > 0, overlap, failed > exhausted))
+	if cl.loss[lossyNode].slow > 0 {
+		w.Probe("idgen.slow-claim-answered")
+	}
+	if len(cl.loss[lossyNode].errs) > 0 {
+		w.Probe("idgen.claim-reply-lost")
+	}
+	w.State(fmt.Sprintf("idgen/%s/n%d/i%d/one=%v/direct=%v/pool%d/ids%d/exh=%v/ovl=%v/fail=%v/lossy=%v/slow=%v", flavour, nodes, perNode, focusOne, direct, poolN, len(keys), exhausted > 0, overlap, failed > exhausted, len(cl.loss[lossyNode].errs) > 0, cl.loss[lossyNode].slow > 0))
 	w.Sample(fmt.Sprintf("idgen %s nodes=%d inst/node=%d direct=%v marker-ttl=%v pool=%d kinds=%v tasks=%d: %d ok, %d exhausted, %d other errors, %d releases, %d entropy reads",
 		flavour, nodes, perNode, direct, insts[0].ttl, poolN, kinds, ntasks, len(gens), exhausted, failed-exhausted, len(rels), workReads))
 }
@@ -941,9 +1049,22 @@ func c15RunNodeAlloc(w *simrt.World, tier string) {
 		nnodes++
 	}
 
+	// one node's connection loses claim requests/replies (a reply lost after the store processed the claim
+	// includes a SetNX on an OCCUPIED slot) and/or answers up to two claims only after seconds
+	lossy := c.Intn(3, "lossy") == 2
+	slowClaims := c.Intn(3, "slow.claims") == 2
+	slowDur := []time.Duration{3*time.Second + 77*time.Microsecond, 5*time.Second + 77*time.Microsecond}[c.Intn(2, "slow.dur")]
+	lossyNode := c.Intn(nnodes, "lossy.node")
+
 	w.SetCrashSentinel(simstore.Crash)
 	cl := c15NewCluster(w, flavour, nnodes)
 	defer cl.close()
+	if lossy {
+		cl.loss[lossyNode].den, cl.loss[lossyNode].reqLoss = 3, true
+	}
+	if slowClaims {
+		cl.loss[lossyNode].slowLeft, cl.loss[lossyNode].slowDen, cl.loss[lossyNode].slowDur = 2, 2, slowDur
+	}
 	if hiccup {
 		*cl.hics[hicNode] = c15hiccup{armed: true, skip: hicSkip, hang: hicHang}
 	}
@@ -1138,6 +1259,19 @@ func c15RunNodeAlloc(w *simrt.World, tier string) {
 			if outage && h1.nodeIdx == outNode && outLen > 60*time.Second && outFrom > 0 && outFrom < h2.retTime {
 				cls = "duplicate-after-lease-lapse:" + flavour
 			}
+			// h2 was given the slot by the very AllocateNodeID call in which its claim on this slot had
+			// returned a transport error: an errored claim was taken for a successful one
+			claimErred := false
+			if h2.nodeIdx >= 0 && h2.nodeIdx < len(cl.loss) {
+				l := cl.loss[h2.nodeIdx]
+				l.mu.Lock()
+				for _, e := range l.errs {
+					if e.key == node.NodeIDKeyPrefix+h1.id && e.stamp > h2.callStamp && e.stamp < h2.retStamp {
+						claimErred = true
+					}
+				}
+				l.mu.Unlock()
+			}
 			// Did somebody else's Delete of this slot's key possibly land after h1 began to allocate? h1 has not
 			// started releasing, so any such Delete belongs to an earlier holder of the slot whose Release
 			// (an unconditional delete by key) was still in flight: h1's claim was wiped by a party of an
@@ -1157,7 +1291,10 @@ func c15RunNodeAlloc(w *simrt.World, tier string) {
 			if hiccup {
 				hc = cl.hics[hicNode]
 			}
-			if cls != "duplicate:"+flavour {
+			if claimErred {
+				cls = "occupied-slot-taken-after-claim-error:" + flavour
+				note = " [" + h2.holder + "'s claim on this slot returned a transport error during this very allocation, yet the allocation returned the slot]"
+			} else if cls != "duplicate:"+flavour {
 				// already explained by the holder's own long outage (lease lapse)
 			} else if stale != nil {
 				// class of the double holding the deleting node took part in
@@ -1212,7 +1349,13 @@ func c15RunNodeAlloc(w *simrt.World, tier string) {
 	if hiccup && cl.hics[hicNode].fired {
 		w.Probe("alloc.single-renewal-failed")
 	}
-	w.State(fmt.Sprintf("alloc/%s/c%d/pre%d/crash=%v/out=%v/hic=%v/probe=%v/conc=%v/cont=%v/fail=%v/dup=%v", flavour, ncont, prefill, crash, outage, hiccup && cl.hics[hicNode].fired, prober, conc, contended, failedAlloc > 0, overlapSeen))
+	if len(cl.loss[lossyNode].errs) > 0 {
+		w.Probe("alloc.claim-errored")
+	}
+	if cl.loss[lossyNode].slow > 0 {
+		w.Probe("alloc.slow-claim-answered")
+	}
+	w.State(fmt.Sprintf("alloc/%s/c%d/pre%d/crash=%v/out=%v/hic=%v/probe=%v/lossy=%v/slow=%v/conc=%v/cont=%v/fail=%v/dup=%v", flavour, ncont, prefill, crash, outage, hiccup && cl.hics[hicNode].fired, prober, len(cl.loss[lossyNode].errs) > 0, cl.loss[lossyNode].slow > 0, conc, contended, failedAlloc > 0, overlapSeen))
 	w.Sample(fmt.Sprintf("nodealloc %s contenders=%d prefilled=%d crash=%v outage=%v(%v) hiccup=%v(skip %d, hang %v) prober=%v(every %v x%d): %d holds, %d failed allocations", flavour, ncont, prefill, crash, outage, outLen, hiccup, hicSkip, hicHang, prober, probePeriod, probeCount, len(holds)-min(prefill, len(holds)), failedAlloc))
 }
 
@@ -1286,8 +1429,8 @@ func init() {
 		Level: "exploration",
 		Rule: "each run draws a mode. (idgen, 10/16) a shared store flavour (CAS memory / CAS redis / tiered hybrid with id keys on the shared cache / tiered with a shared cache lacking SetNX / store lacking CASStore), 1-3 nodes x 1-2 generator instances (IDManager, or StorageIDGenerator with marker lifetime 7s/1h/never), " +
 			"an entropy pool of 1-8 values that replaces crypto/rand.Reader for the run (pool index drawn from the choice stream at every Read), 1-2 id kinds, per candidate id a pre-existing state (none / live marker / marker already expired / taken by a stored record), " +
-			"2-5 tasks (spread over the instances, or in 1/4 of the runs all on one instance) with 1-4 operations each (Generate, Release of an id the task owns, GenerateUnique* with a check function that may fail, sleeps of 3s/61min/31d), store errors on one node (p=0,1/6,1/3) and a node crash before its k-th store operation; tasks are interleaved at statement granularity. " +
-			"(nodealloc, 5/16) 2-3 NodeIDAllocator contenders with 1-2 allocate/hold/release cycles (holds 0s..260s so heartbeat renewals and lease lapses occur), 0-3 or all 1000 slots pre-occupied with 20s/1h claims, a node crash, a 20s or 200s store outage of one holder, or a single failing Set (the k-th, k=1..4, blocking 0/5/20s like a timeout) on one holder's store connection, and a prober node that allocates+releases every 4/7/11s (sub-millisecond offset) for 10-39 rounds so that short free windows of a held slot are seen. " +
+			"2-5 tasks (spread over the instances, or in 1/4 of the runs all on one instance) with 1-4 operations each (Generate, Release of an id the task owns, GenerateUnique* with a check function that may fail, sleeps of 3s/61min/31d), store errors on one node (p=0,1/6,1/3; the request never reaches the store), replies lost AFTER the store processed a SetNX/Set/Delete on one node (p=0,1/4; includes a SetNX on a colliding candidate), up to three claim (SetNX) answers that take 3s/7s (slow request or slow reply), and a node crash before its k-th store operation; tasks are interleaved at statement granularity. " +
+			"(nodealloc, 5/16) 2-3 NodeIDAllocator contenders with 1-2 allocate/hold/release cycles (holds 0s..260s so heartbeat renewals and lease lapses occur), 0-3 or all 1000 slots pre-occupied with 20s/1h claims, a node crash, a 20s or 200s store outage of one holder, or a single failing Set (the k-th, k=1..4, blocking 0/5/20s like a timeout) on one holder's store connection, claim requests/replies lost on one node's connection (p=1/3 per SetNX/Delete, reply loss also per Set; a lost reply includes a SetNX on an occupied slot), up to two claim answers that take 3s/5s, and a prober node that allocates+releases every 4/7/11s (sub-millisecond offset) for 10-39 rounds so that short free windows of a held slot are seen. " +
 			"(uuid, 1/16) connection/tunnel/mapping-instance ids under the untouched full-entropy reader. " +
 			"Non-trivial: (idgen) at least one candidate collided and was retried, or generation ended in exhaustion, or two Generate calls for one kind overlapped; (nodealloc) two allocations overlapped, or two holders (incl. foreign) met on one slot, or an allocation failed. Distinct = distinct abstract state key (flavour, topology, pool size, outcome classes) and schedule hash.",
 		Real: []string{"internal/core/idgen StorageIDGenerator.Generate/Release/tryMarkAsUsed, IDManager incl. GenerateUnique*", "internal/core/idgen UUIDGenerator", "internal/core/node NodeIDAllocator (allocate, heartbeat, release)",
